@@ -101,6 +101,11 @@ func cmsBlobMutations(v Variant, blob []byte) ([]blobMut, error) {
 }
 
 func cmsSemantics(env *Env, v Variant, blob []byte, embed func(nb []byte) ([]byte, error)) []SemMut {
+	if _, ok := outOfValidity[v.Key]; ok {
+		// artifact signed under a certificate that is not valid today: the
+		// mutations are grafts into its unprotected parts (tsgraft.go)
+		return timestampGrafts(env, v, blob, embed)
+	}
 	muts, err := cmsBlobMutations(v, blob)
 	if err != nil {
 		harnessFatal("cms semantic mutations: %v", err)
